@@ -81,7 +81,9 @@ let split_on c s = String.split_on_char c s
 
 let () =
   self_check ();
-  let ic = if Array.length Sys.argv > 1 then open_in Sys.argv.(1) else stdin in
+  let args = List.filter (fun a -> a <> "--raw") (List.tl (Array.to_list Sys.argv)) in
+  let raw = List.mem "--raw" (Array.to_list Sys.argv) in
+  let ic = match args with f :: _ -> open_in f | [] -> stdin in
   let oc = stdout in
   let w = ref (init_world (n_of_int 1024) None) in
   let dump () =
@@ -90,7 +92,7 @@ let () =
       Printf.sprintf "M %s %s %s %s %s %s" (hex_of_bytes k) (hex_of_bytes r.r_val)
         (string_of_n r.r_flags) (string_of_n r.r_cas) (string_of_n r.r_ttl) (string_of_n r.r_ts))
       st.s_mem in
-    List.iter (fun l -> output_string oc l; output_char oc '\n') (List.sort Stdlib.compare lines);
+    List.iter (fun l -> output_string oc l; output_char oc '\n') (if raw then lines else List.sort Stdlib.compare lines);
     Printf.fprintf oc "U %s %s %s\n" (string_of_n st.s_usage) (string_of_n st.s_now)
       (string_of_n (total st.s_mem)) in
   let status conn_i =
